@@ -523,6 +523,10 @@ def run(ctx, focus):
         cases += session_full_runs(ctx, violations, dist)
         # ... and the language is that of the session's own flags when the run is picked up from its save file
         n_cli = cli_resume_flags(ctx, focus, violations, 1)
+        # ... and the language includes the strings of every listed Markov level, those far above level 10 too
+        from props import C14 as _c14h
+        violations += _c14h.high_level_case('C02')
+        n_cli += 2
         cli_runs += n_cli
         cases += n_cli
     if focus == 'C08':
@@ -564,6 +568,9 @@ def replay(ctx, payload, focus):
         common.use_impl()
         return _c15l.limited_resume_history(focus)[0]
     w = payload.get('violation', {}).get('witness') or payload.get('witness')
+    if w and w.get('high_level_case'):
+        from props import C14 as _c14h
+        return _c14h.high_level_case(focus)
     if w and w.get('every_size_case'):
         from props import C17 as _c17s
         return _c17s.every_size_case(focus)
